@@ -73,4 +73,16 @@ CHECKS = {
         "note": "Equality is the package's == plus an explicit attribute list; float bounds are compared exactly (the round trip is specified as lossless); float32 radii are not generated.",
         "technique": "round-trip property-based testing (Hypothesis)",
     },
+    "C17": {
+        "text": "Generated grids of every class and decompositions (any number of chunks per axis up to the number of cells, uneven and single-cell chunks, -1/int/short-list formats): tiling (edges, shapes, volumes, cell coordinates, periodicity of split axes), split/combine identity for arrays, fields of rank 0-2 and collections with and without ghost cells, neighbour relations against an independent model (symmetry, periodic wrap-around, id bookkeeping), and operator equivalence: the harness executes the ghost exchange serially through the package's own _MPIBC index sets and to_subgrid conditions, applies the raw operator per sub-grid and compares the combined result with the operator on the whole grid (interpreted-source breadth + real-JIT sample). Documented rejections are judged by 'documented error or proper tiling'. Exploration: held on all generated cases.",
+        "ref": "DESIGN.md section 4, C17",
+        "note": "Only serial methods with explicit node_id (no MPI available); face-uniform constant conditions in the operator clause (what to_subgrid documents); known finding C17:extract_boundary_conditions:anti-periodic-split-axis is excluded by construction and confirmed by a dedicated sub-check.",
+        "technique": "property-based testing with an independent neighbour/tiling model and a differential whole-grid oracle (Hypothesis)",
+    },
+    "C18": {
+        "text": "Generated grids of every class (hole/no hole, >= 2 cells per axis), boundary assignments per side (value, derivative, mixed, curvature, periodic; constants, per-face arrays, coordinate expressions) and right-hand sides (random; compatible by construction for pure Neumann/periodic problems; an incompatible family): whenever solve_poisson_equation / solve_laplace_equation return a field, feeding it back into the discrete Laplacian with the same conditions must reproduce the right-hand side (tolerance 10x the solver's acceptance plus a round-off term); an independent dense reference (own stencils + own ghost-cell semantics, SVD) classifies problems as regular/singular-compatible/incompatible, so that errors on well-conditioned regular problems and fields returned for incompatible problems are violations. Exploration: held on all generated cases.",
+        "ref": "DESIGN.md section 4, C18",
+        "note": "Real right-hand sides; Robin coefficients keep |2+gamma*dx| >= 0.1; RuntimeErrors on singular-but-compatible or ill-conditioned problems are counted, not judged; blind cases (tiny right-hand side vs the solver's absolute 1e-5 acceptance) never count as non-trivial.",
+        "technique": "property-based testing with a residual oracle through an independent route and a dense reference classification (Hypothesis)",
+    },
 }
